@@ -104,8 +104,16 @@ static void wake_waiters (nsync_dll_list_ to_wake_list, int all_readers) {
 				   - the first waiter can't acquire *pmu, or
 				   - the first waiter is a writer, or
 				   - this element is a writer. */
-				if (p_w == NULL) {
-					/* wake non-native waiter */
+				if (p_w == NULL || p_w->cv_mu != pmu) {
+					/* Wake, rather than transfer, a non-native
+					   waiter and a waiter that is not associated
+					   with *pmu (it came through
+					   nsync_cv_wait_with_deadline_generic() with
+					   the caller's own lock routines, or uses
+					   another mutex):  only a waiter that knows it
+					   may be moved to *pmu's queue reacquires as
+					   the designated waker and clears
+					   MU_DESIG_WAKER.  */
 				} else if (first_cant_acquire || first_is_writer || p_is_writer) {
 					to_wake_list = nsync_dll_remove_ (to_wake_list, p);
 					pmu->waiters = nsync_dll_make_last_in_list_ (pmu->waiters, p);
